@@ -2,7 +2,7 @@
 // labels: put.* store.parents.* store.get_exact.* store.prefixes_of.* store.parent_iterator.* store.remove_prefix_filtered.* store.entry_put.records-row
 // tier: quick
 // bound: one author per sequence, keys over {"", a, ab, b, [61 ff], a^40 (forty bytes, its prefixes are 39 and 40 bytes shorter)}, two timestamps, entries and deletion markers; every sequence of up to
-// three distinct entries in every order (thorough tier: up to four). Checks C02: the final state is the same for every order and equals the reference
+// three distinct entries in every order (thorough tier: up to four). Checks C02: every insert answers as the reference does (rejected / number of pruned entries) and the final state is the same for every order and equals the reference
 // (an entry is held iff no other offered entry of the same author at its key or a prefix of it is >= it).
 #[cfg(test)]
 mod verif_rp_c02_order {
@@ -31,8 +31,20 @@ mod verif_rp_c02_order {
     async fn run(store: &mut Store, ns: &NamespaceSecret, seq: &[E], base: u64) -> Vec<(Vec<u8>, u64, bool)> {
         let a = Author::new(&mut rand::rng());
         let mut r = store.open_replica(&ns.id()).unwrap();
-        for e in seq {
-            let _ = r.insert_remote_entry(signed(ns, &a, e, base), [1u8; 32], ContentStatus::Missing).await;
+        // step by step: the answer of every insert is the reference answer - rejected iff an entry held at the key or a prefix of it is not older,
+        // otherwise the number of pruned entries (held entries below the key that are not newer)
+        let mut held: Vec<E> = vec![];
+        for (step, e) in seq.iter().enumerate() {
+            let res = r.insert_remote_entry(signed(ns, &a, e, base), [1u8; 32], ContentStatus::Missing).await;
+            let dominated = held.iter().any(|p| e.key.starts_with(&p.key) && val(p) >= val(e));
+            if dominated {
+                assert!(res.is_err(), "WITNESS step {step} of {seq:?}: {e:?} is not newer than an entry held at its key or a prefix, yet the insert answered {res:?}");
+            } else {
+                let pruned = held.iter().filter(|c| c.key.starts_with(&e.key) && val(c) <= val(e)).count();
+                assert_eq!(res.as_ref().ok().copied(), Some(pruned), "WITNESS step {step} of {seq:?}: insert of {e:?} must report {pruned} pruned entries, answered {res:?}");
+                held.retain(|c| !(c.key.starts_with(&e.key) && val(c) <= val(e)));
+                held.push(e.clone());
+            }
         }
         drop(r);
         store.close_replica(ns.id());
